@@ -36,27 +36,32 @@ ENGINES = {
 # TLC jobs: (name, module, cfg, nparts, simulate walks or None, depth, env)
 JOBS = {
     "quick": [
-        ("e_d1", "CExpr", "CExpr_mc.cfg", 2, None, None, {}),
-        ("e_un", "CExpr", "CExpr_un.cfg", 1, None, None, {}),
-        ("e_lit", "CExpr", "CExpr_lit.cfg", 1, None, None, {}),
-        ("e_d2", "CExpr", "CExpr_d2.cfg", 2, None, None, {}),
-        ("e_asg", "CExpr", "CExpr_asg.cfg", 2, None, None, {}),
-        ("e_bf", "CExpr", "CExpr_bf.cfg", 1, None, None, {}),
-        ("e_sim", "CExpr", "CExpr_sim.cfg", 2, 3000, 40, {}),
-        ("s_d2", "CStmt", "CStmt_mc.cfg", 2, None, None, {}),
-        ("s_sim", "CStmt", "CStmt_sim.cfg", 2, 3000, 60, {}),
+        ("e_un", "CExpr", "CExpr_un.cfg", 1, None, None, {}),        # depth <= 1: every unary operator and cast x full grid
+        ("e_d1", "CExpr", "CExpr_mc.cfg", 2, None, None, {}),        # depth 1: every binary operator x every pair of types (grid g2)
+        ("e_cond", "CExpr", "CExpr_cond.cfg", 1, None, None, {}),    # depth 1: ?: over 9 types
+        ("e_lit", "CExpr", "CExpr_lit.cfg", 1, None, None, {}),      # literal types (6.4.4.1) under unary operators and casts
+        ("e_d2", "CExpr", "CExpr_d2.cfg", 2, None, None, {}),        # depth 2, minimal parentheses
+        ("e_asg", "CExpr", "CExpr_asg.cfg", 2, None, None, {}),      # = op= ++ -- on every lvalue type
+        ("e_bf", "CExpr", "CExpr_bf.cfg", 1, None, None, {}),        # bit-field operands and lvalues
+        ("e_sim", "CExpr", "CExpr_sim.cfg", 2, 3000, 40, {}),        # depth <= 3, full grid, constant-expression capable
+        ("e_simrt", "CExpr", "CExpr_simrt.cfg", 2, 3000, 40, {}),    # depth <= 3 with assignments, ++/--, bit-fields
+        ("s_d2", "CStmt", "CStmt_mc.cfg", 2, None, None, {}),        # statement trees depth <= 2, <= 5 nodes
+        ("s_sim", "CStmt", "CStmt_sim.cfg", 2, 4000, 60, {}),        # statement trees depth <= 3, <= 14 nodes
     ],
     "thorough": [
-        ("e_d1", "CExpr", "CExpr_t.cfg", 8, None, None, {}),
-        ("e_un", "CExpr", "CExpr_un_t.cfg", 1, None, None, {}),
-        ("e_lit", "CExpr", "CExpr_lit.cfg", 1, None, None, {}),
-        ("e_d2", "CExpr", "CExpr_d2_t.cfg", 6, None, None, {}),
-        ("e_asg", "CExpr", "CExpr_asg_t.cfg", 6, None, None, {}),
-        ("e_bf", "CExpr", "CExpr_bf_t.cfg", 4, None, None, {}),
-        ("e_sim", "CExpr", "CExpr_sim.cfg", 6, 60000, 40, {}),
+        ("e_un", "CExpr", "CExpr_un.cfg", 1, None, None, {}),
+        ("e_d1", "CExpr", "CExpr_t.cfg", 6, None, None, {}),
+        ("e_d1f", "CExpr", "CExpr_tf.cfg", 8, None, None, {}),
+        ("e_cond", "CExpr", "CExpr_cond.cfg", 1, None, None, {}),
+        ("e_lit", "CExpr", "CExpr_lit_t.cfg", 2, None, None, {}),
+        ("e_d2", "CExpr", "CExpr_d2_t.cfg", 8, None, None, {}),
+        ("e_asg", "CExpr", "CExpr_asg_t.cfg", 4, None, None, {}),
+        ("e_bf", "CExpr", "CExpr_bf_t.cfg", 6, None, None, {}),
+        ("e_sim", "CExpr", "CExpr_sim.cfg", 8, 60000, 40, {}),
+        ("e_simrt", "CExpr", "CExpr_simrt.cfg", 8, 60000, 40, {}),
         ("s_d2", "CStmt", "CStmt_mc.cfg", 2, None, None, {}),
-        ("s_d3", "CStmt", "CStmt_t.cfg", 6, None, None, {}),
-        ("s_sim", "CStmt", "CStmt_sim.cfg", 6, 40000, 60, {}),
+        ("s_d3", "CStmt", "CStmt_t.cfg", 8, None, None, {}),
+        ("s_sim", "CStmt", "CStmt_sim.cfg", 8, 40000, 60, {}),
     ],
 }
 SELFTEST_JOBS = [("e_un", "CExpr", "CExpr_un.cfg", 1, None, None, {}), ("s_d2", "CStmt", "CStmt_mc.cfg", 1, None, None, {})]
